@@ -32,7 +32,7 @@ REQUIRED_THEOREMS = ['CfVerif.C16.' + t for t in (
     'residual_zero_iff_aligned', 'deflip_correct', 'align_exact_of_zero_residual', 'x_samples_on_positive_axis',
     'aligned_unique', 'align_recovers_true_alignment',
     'scale_uniform', 'scale_fixed_point_exact', 'scale_diagonals_exact', 'intersection_on_plane_and_ray',
-    'scale_inputs_unmodified', 'scale_heap_refines_value', 'gen_pose_scale_rebinds', 'gen_aligner_pure')]
+    'scale_inputs_unmodified', 'scale_heap_refines_value', 'gen_pose_scale_rebinds', 'gen_aligner_pure', 'gen_diag_pairs_are_diagonals')]
 TRUSTED = ['harness/corr/c16.py extractor + correspondence',
            'real numbers vs IEEE binary64: the theorems are about the model over R; the same definitions run over Float agree with numpy to 1e-11',
            'scipy Rotation.from_rotvec(v).as_matrix() = Rodrigues rotation (model: rotVecToMat; scipy uses a Taylor series of sin(t/2)/t below 1e-3 rad)',
@@ -264,6 +264,25 @@ def extract(ctx):
     stmts = [n for n in sc.body if not (isinstance(n, ast.Expr) and isinstance(n.value, ast.Constant))]   # drop the docstring
     g.strings('poseScale', [ast.unparse(n) for n in stmts])
     g.strings('poseStores', sorted(set('%s: %s' % (f.name, s) for f in P.body if isinstance(f, ast.FunctionDef) and f.name != '__init__' for s in _stores(f))))
+
+    # ---- deck sensor layout: which corner (sign of x, sign of y) each sensor index is
+    D = X.find(tt, 'LhDeck4SensorPositions')
+    pos = [n.value for n in D.body if isinstance(n, ast.Assign) and len(n.targets) == 1 and ast.unparse(n.targets[0]) == 'positions']
+    X.expect(len(pos) == 1 and isinstance(pos[0], ast.Call) and pos[0].args and isinstance(pos[0].args[0], (ast.List, ast.Tuple)),
+             'LhDeck4SensorPositions.positions is not np.array([...])')
+    signs = []
+    for row in pos[0].args[0].elts:
+        X.expect(isinstance(row, (ast.Tuple, ast.List)) and len(row.elts) == 3, 'sensor position is not a 3-tuple: ' + ast.unparse(row))
+        sg = []
+        for e, nm in zip(row.elts[:2], ('_sensor_distance_length', '_sensor_distance_width')):
+            neg = isinstance(e, ast.BinOp) and isinstance(e.left, ast.UnaryOp) and isinstance(e.left.op, ast.USub)
+            core = ast.unparse(e.left.operand if neg else (e.left if isinstance(e, ast.BinOp) else e))
+            X.expect(isinstance(e, ast.BinOp) and isinstance(e.op, ast.Div) and core == nm and ast.unparse(e.right) == '2',
+                     'sensor coordinate is not +-%s / 2: %s' % (nm, ast.unparse(e)))
+            sg.append(-1 if neg else 1)
+        X.expect(ast.unparse(row.elts[2]) == '0.0', 'sensor z is not 0.0: ' + ast.unparse(row.elts[2]))
+        signs.append(tuple(sg))
+    g.raw('def sensorCorners : List (Int × Int) := [' + ', '.join('(%d, %d)' % sg for sg in signs) + ']')
 
     # ---- scaler
     S = X.find(X.parse(SCALER), 'LighthouseSystemScaler')
@@ -640,8 +659,8 @@ def gen_cases(ctx):
     # de-flip: arbitrary raw transforms (all four flip combinations), error branches
     for _ in range(500 * k):
         raw = rand_pose(rng, Pose)
-        xs = [np.array(rand_vec(rng)) for _ in range(rng.choice([0, 1, 1, 2, 3, 5]) if rng.random() < 0.97 else 0)]
-        bs = {i: rand_pose(rng, Pose) for i in rng.sample(range(16), rng.choice([0, 1, 1, 2, 4]) if rng.random() < 0.97 else 0)}
+        xs = [np.array(rand_vec(rng)) for _ in range(rng.choice([1, 1, 2, 3, 5]) if rng.random() < 0.95 else 0)]
+        bs = {i: rand_pose(rng, Pose) for i in rng.sample(range(16), rng.choice([1, 1, 2, 4]) if rng.random() < 0.95 else 0)}
         tie = False
         if xs:
             tie = abs(raw.rotate_translate(np.mean(xs, axis=0))[0]) < 1e-9
@@ -798,18 +817,32 @@ def is_proper(np, R, tol=1e-9):
     return np.abs(R.T @ R - np.identity(3)).max() < tol and abs(np.linalg.det(R) - 1.0) < tol
 
 
+def constraint_errors(np, T, origin, xs, pl):
+    """how far a transformation is from what the reference samples demand (the property's own reading, not _calc_residual)"""
+    e = float(np.abs(T.rotate_translate(origin)).max())
+    for x in xs:
+        y = T.rotate_translate(x)
+        e = max(e, abs(float(y[1])), abs(float(y[2])))
+    for p in pl:
+        e = max(e, abs(float(T.rotate_translate(p)[2])))
+    return e
+
+
 def converges_with_more_evaluations(origin, xs, pl, tol):
-    """the same problem handed to the same optimiser with the same settings except the evaluation cap"""
+    """the same problem handed to the same optimiser with the same settings except the evaluation cap: does the resulting
+    transformation satisfy the reference-point constraints (judged independently of _calc_residual)?"""
     import scipy.optimize
     np, A, S, Pose, _, _ = _mods()
     r = scipy.optimize.least_squares(A._calc_residual, np.zeros(6), verbose=0, jac_sparsity=None, x_scale='jac', ftol=1e-8, method='trf',
                                      max_nfev=200, args=(origin, xs, pl))
-    return bool(np.abs(r.fun).max() < tol), int(r.nfev)
+    return bool(constraint_errors(np, A._Pose_from_params(r.x), origin, xs, pl) < tol), int(r.nfev)
 
 
-def check_align(ctx, sc, what, tol=1e-6, stats=None):
+def check_align(ctx, sc, what, tol=1e-6, stats=None, in_domain=True):
     """all clauses of the alignment part of the property on one scenario; returns True when the exactness clause failed
-    because the optimiser stopped at its evaluation cap (D17)"""
+    because the optimiser stopped at its evaluation cap (D17).  Outside the 30 deg / 3 m domain convergence is not promised:
+    there the exactness clauses are required only when the optimiser's own answer satisfies the constraints up to a mirror
+    flip (that is what "mirror-flipped answers are corrected" means)."""
     np, A, S, Pose, _, _ = _mods()
     origin, xs, pl, bs = sc['origin'], sc['xs'], sc['pl'], sc['bs']
     inp = {'what': what, 'origin': [float(v) for v in origin], 'x_axis': [[float(v) for v in x] for x in xs], 'xy_plane': [[float(v) for v in x] for x in pl],
@@ -844,6 +877,13 @@ def check_align(ctx, sc, what, tol=1e-6, stats=None):
             if abs(d0 - d1) > 1e-9 * max(1.0, d0) or np.abs(r0 - r1).max() > 1e-9:
                 ctx.witness('align-not-rigid', 'distance or relative orientation between two base stations changed', inp, pair=[ks[i], ks[j]])
     # exactness
+    call = spy.calls[0] if spy.calls else None
+    if not in_domain:
+        raw_ok = call is not None and len(call['x']) == 6 and constraint_errors(np, A._Pose_from_params(np.array(call['x'])), origin, xs, pl) < 1e-9
+        if stats is not None:
+            stats['ood-converged' if raw_ok else 'ood-unconverged'] = stats.get('ood-converged' if raw_ok else 'ood-unconverged', 0) + 1
+        if not raw_ok:
+            return False
     noise = sc.get('noise', 0.0)
     etol = tol if not noise else 12 * noise
     errs = {}
@@ -866,11 +906,12 @@ def check_align(ctx, sc, what, tol=1e-6, stats=None):
         stats['maxerr'] = max(stats.get('maxerr', 0.0), max(errs.values()) if not bad else 0.0)
     if not bad:
         return False
-    call = spy.calls[0] if spy.calls else None
-    capped = call is not None and call['status'] == 0 and call['nfev'] >= call['kw'].get('max_nfev', 0)
+    capped = in_domain and call is not None and call['status'] == 0 and call['nfev'] >= call['kw'].get('max_nfev', 0)
     if capped:
-        conv, nfev = converges_with_more_evaluations(origin, xs, pl, 1e-9 if not noise else 1e9)
-        if conv and not noise:
+        conv, nfev = converges_with_more_evaluations(origin, xs, pl, 1e-9 if not noise else etol)
+        if conv:
+            if sum(1 for w in ctx.witnesses if w['key'] == D17_KEY) >= 6:
+                return True      # enough replays of the known finding recorded; keep room for other witnesses
             ctx.witness(D17_KEY, 'aligner misses the reference points: least_squares stopped at max_nfev before converging '
                         '(the same problem converges when allowed more evaluations)', inp, errors=bad, nfev_needed=nfev)
             return True
@@ -878,6 +919,32 @@ def check_align(ctx, sc, what, tol=1e-6, stats=None):
     ctx.witness('align-inexact:' + worst, 'aligned system does not satisfy the reference-point constraints', inp, errors=bad,
                 lsq_status=None if call is None else call['status'])
     return False
+
+
+def check_deflip(ctx, rng):
+    """mirror-flipped answers are corrected: hand _de_flip_transformation each of the four zero-residual candidates
+    F o T* (F = identity, half turn about Z, about X, about both) of a consistent scene; it must return T* itself"""
+    np, A, S, Pose, _, _ = _mods()
+    sc = scenario(rng, Pose, np, maxdeg=180.0, maxt=5.0, min_off=0.3)
+    M = sc['M']
+    Tstar = Pose(R_matrix=M.rot_matrix.T, t_vec=-M.rot_matrix.T @ M.translation)
+    for name, diag in (('none', (1, 1, 1)), ('z', (-1, -1, 1)), ('x', (1, -1, -1)), ('z+x', (-1, 1, -1))):
+        F = Pose(R_matrix=np.diag(diag).astype(float))
+        raw = F.rotate_translate_pose(Tstar)
+        snap = (raw._R_matrix.copy(), raw._t_vec.copy(), [x.copy() for x in sc['xs']], snapshot(sc['origin'], sc['xs'], sc['pl'], sc['bs']))
+        inp = {'flip_of_raw': name, 'raw': enc_pose(raw), 'x_axis': [[float(v) for v in x] for x in sc['xs']],
+               'first_bs_translation': [float(v) for v in list(sc['bs'].values())[0].translation]}
+        try:
+            T = A._de_flip_transformation(raw, sc['xs'], sc['bs'])
+        except Exception as e:
+            ctx.witness('deflip-raises', '_de_flip_transformation raises on a well-formed input', inp, got=repr(e)[:200])
+            continue
+        if not (np.array_equal(snap[0], raw._R_matrix) and np.array_equal(snap[1], raw._t_vec) and unmodified(snap[3], sc['origin'], sc['xs'], sc['pl'], sc['bs'])):
+            ctx.witness('deflip-modifies-inputs', '_de_flip_transformation modified its inputs', inp)
+        err = max(np.abs(T.rot_matrix - Tstar.rot_matrix).max(), np.abs(T.translation - Tstar.translation).max())
+        if err > 1e-9:
+            ctx.witness('deflip-wrong:' + name, 'a mirror-flipped zero-residual answer is not corrected to the true alignment', inp, error=float(err))
+        ctx.count('search:deflip:' + name)
 
 
 def check_scale(ctx, rng):
@@ -921,9 +988,10 @@ def check_scale(ctx, rng):
 def check_scale_diagonals(ctx, rng):
     """a consistent system (rays really hit the deck sensors), shrunk/grown by s; scaling to the true diagonal must undo s"""
     np, A, S, Pose, LhCfPoseSample, LighthouseBsVector = _mods()
-    d = rng.uniform(0.02, 0.06)
-    sensors = [np.array([-d, d * 0.6, 0.0]), np.array([-d, -d * 0.6, 0.0]), np.array([d, d * 0.6, 0.0]), np.array([d, -d * 0.6, 0.0])]
-    true_diag = float(np.linalg.norm(sensors[0] - sensors[3]))
+    from cflib.localization.lighthouse_types import LhDeck4SensorPositions
+    sensors = [np.array(p, dtype=float) for p in LhDeck4SensorPositions.positions]
+    L, W = sensors[2][0] - sensors[0][0], sensors[0][1] - sensors[1][1]
+    true_diag = float(math.sqrt(L * L + W * W))       # distance between opposite corners of the sensor rectangle
     ids = rng.sample(range(8), rng.choice([1, 2, 3]))
     bs = {}
     for i in ids:     # base station up high, looking roughly at the origin region
@@ -1023,6 +1091,14 @@ def search(ctx):
     if capped > max(12, 0.02 * n):
         ctx.witness('lsq-unconverged-rate', 'the aligner stops before convergence far more often than the characterised D17 rate (~0.3 %)',
                     {'scenarios': n, 'stopped_at_max_nfev': capped})
+    # (1b) mirror-flipped answers: the de-flip alone on exact flipped candidates, and whole align far outside the domain
+    for i in range(200 if ctx.tier == 'quick' else 2000):
+        check_deflip(ctx, rng)
+    for i in range(300 if ctx.tier == 'quick' else 3000):
+        sc = scenario(rng, Pose, np, maxdeg=180.0, maxt=5.0, min_off=0.3)
+        check_align(ctx, sc, 'random out-of-domain scenario %d' % i, stats=stats, in_domain=False)
+    ctx.count('search:ood-converged', stats.get('ood-converged', 0))
+    ctx.count('search:ood-unconverged', stats.get('ood-unconverged', 0))
     # (2) scaling
     for i in range(300 if ctx.tier == 'quick' else 3000):
         check_scale(ctx, rng)
